@@ -79,6 +79,11 @@ func c03Searches(p *run.Part, tier string) []*seqx.Search {
 		return &seqx.Search{Part: p, Check: "bfs", Cfg: cfg, Alphabet: Alphabet(3, false), Depth: d, Prefix: Prefixes[prefix], PrefixID: prefix,
 			Deadline: dl, Nontrivial: forked,
 			OnTransition: func(w *seqx.World, pre *seqx.Pre, op seqx.Op, st *seqx.Step, c seqx.Case) {
+				if expectedDenial(w, pre, op, st) {
+					// a merge or append the destination's access policy must refuse: the log must stay as it was,
+					// and the property's oracle below applies to the unchanged log as to any other state
+					st = &seqx.Step{UID: -1}
+				}
 				if stepFailure(p, "bfs", op, st, c) {
 					return
 				}
@@ -86,7 +91,7 @@ func c03Searches(p *run.Part, tier string) []*seqx.Search {
 			}}
 	}
 	return []*seqx.Search{mk(CfgDef3, "", depth), mk(CfgHash3, "", depth), mk(CfgShared3, "", depth-1), mk(CfgSharedH, "", depth-1),
-		mk(CfgDef3, "+tri4", pdepth), mk(CfgDef3, "+fork12", pdepth), mk(CfgClk3, "", depth-1)}
+		mk(CfgDef3, "+tri4", pdepth), mk(CfgDef3, "+fork12", pdepth), mk(CfgClk3, "", depth-1), mkPolicy(mk, "denyB/default", depth)}
 }
 
 func init() {
